@@ -34,6 +34,7 @@ func (x *Exec) completeCall(st *State, site ssa.Instruction, kind frameKind, res
 		fr.idx++
 	}
 	// fkDefer: RunDefers is re-executed
+	x.hintsAt(st, site, true)
 }
 
 func callRank(fn *ssa.Function, site ssa.Instruction) int {
@@ -61,7 +62,79 @@ func (x *Exec) onStack(st *State, fn *ssa.Function) bool {
 	return false
 }
 
+// calleeLabel: the name hints use for a call site.
+func calleeLabel(c *ssa.CallCommon) string {
+	if c.IsInvoke() {
+		return c.Method.Name()
+	}
+	if f := c.StaticCallee(); f != nil {
+		s := fnShort(f)
+		if i := strings.Index(s, "["); i >= 0 {
+			s = s[:i]
+		}
+		return s
+	}
+	return ""
+}
+
+func commonOf(i ssa.Instruction) *ssa.CallCommon {
+	switch i := i.(type) {
+	case *ssa.Call:
+		return &i.Call
+	case *ssa.Defer:
+		return &i.Call
+	case *ssa.Go:
+		return &i.Call
+	}
+	return nil
+}
+
+// hintsAt proves and then assumes the hints of the function under verification attached to this call site.
+func (x *Exec) hintsAt(st *State, site ssa.Instruction, after bool) {
+	if x.spec == nil || len(x.spec.Hints) == 0 || st.fr == nil || st.fr.fn != x.top || st.dead {
+		return
+	}
+	cc := commonOf(site)
+	if cc == nil {
+		return
+	}
+	label := calleeLabel(cc)
+	if label == "" {
+		return
+	}
+	k := 0
+	found := false
+	for _, b := range st.fr.fn.Blocks {
+		for _, i := range b.Instrs {
+			if c2 := commonOf(i); c2 != nil && calleeLabel(c2) == label {
+				k++
+			}
+			if i == site {
+				found = true
+				break
+			}
+		}
+		if found {
+			break
+		}
+	}
+	for _, h := range x.spec.Hints {
+		if h.After != after || h.Callee != label || h.K != k {
+			continue
+		}
+		env := x.frameEnv(st)
+		g := x.evalBool(env, h.C.E)
+		when := "before"
+		if after {
+			when = "after"
+		}
+		x.oblige(st, fmt.Sprintf("hint:%s:%s#%d:%s", when, label, k, h.C.Label), "hint", h.C.Src, g)
+		st.assume(g)
+	}
+}
+
 func (x *Exec) invoke(st *State, site ssa.Instruction, c *ssa.CallCommon, fnv Val, args []Val, kind frameKind) {
+	x.hintsAt(st, site, false)
 	if b, ok := c.Value.(*ssa.Builtin); ok && !c.IsInvoke() {
 		res := x.builtin(st, site, b, c, args)
 		x.completeCall(st, site, kind, res)
